@@ -320,7 +320,7 @@ macro_rules! by_value {
 macro_rules! chunks_mut {
     ($name:ident, $T:ty, $N:ty, $n:expr, $cap:expr) => {
         #[kani::proof]
-        #[kani::unwind(8)]
+        #[kani::unwind(70)]
         fn $name() {
             let zs = core::mem::size_of::<$T>() == 0;
             let mut back: [$T; $cap] = any_arr::<$T, $cap>();
@@ -391,7 +391,7 @@ fn c10_chunks_n0_panics() {
 macro_rules! native_chunks {
     ($name:ident, $T:ty, $N:ty, $n:expr) => {
         #[kani::proof]
-        #[kani::unwind(8)]
+        #[kani::unwind(20)]
         fn $name() {
             let zs = core::mem::size_of::<[$T; $n]>() == 0;
             let mut native: [[$T; $n]; 4] = any_arr::<[$T; $n], 4>();
